@@ -53,6 +53,12 @@ QrOK(r) ==
     /\ r.lowzero                              \* R(i,j) = 0 exactly for j < i
     /\ r.qtail                                \* wide case: the columns of Q beyond min(rows,cols) are zero
     /\ (r.solved = 1 => r.e_opt <= QrTol /\ r.e_x <= QrTol)     \* least squares / minimum norm
+\* a call on a REUSED QR object (any earlier history of factorize / compute / solve calls of other shapes, orders):
+\* bitwise the result of a fresh object, and the definition as for a fresh one
+QrReuseOK(r) ==
+    /\ r.fresh
+    /\ r.e_fact <= QrTol /\ r.e_orth <= QrTol /\ r.lowzero /\ r.qtail
+    /\ (r.solved = 1 => r.e_opt <= QrTol /\ r.e_x <= QrTol)
 \* solve() on a sub-matrix view (leading dimension ld, pad = ld - packed size): the least-squares (tall, square) /
 \* minimum-norm (wide) solution of the view, and nothing outside the view is written
 QrViewOK(r) ==
